@@ -260,7 +260,7 @@ class Program:
                     f["p_current"] = f["p"]
                     f["p"] = ren[f["p"]]
                 b = f.get("mir")
-                for body in ([b] + list(b.get("promoted", []) or [])) if b else []:
+                for body in ([b] + list(f.get("promoted", []) or [])) if b else []:
                     for bb in body.get("bbs", []):
                         t = bb.get("t", {})
                         fop = t.get("f") if isinstance(t, dict) else None
